@@ -188,14 +188,28 @@ def hiWordIndex (b1 b2 : Nat) : Nat :=
 
 /-- `G?Jac.JointScalarMultiplication` : `r` is the modulus of `fr` (`SetBigInt` reduces the scalars). The Go code
 takes `maxBit` from the unreduced |sᵢ| and reads limb `hiWordIndex` of the reduced 4..6-limb array; limbs beyond the
-array are 0 here (total model, as the property demands); `jointPanics` tells where the Go code panics. -/
+array are 0 here (total model, as the property demands). The Go text now clamps the bound (`jointScalarMulC`, commit 90fc5e6);
+`jointPanics` tells where the text BEFORE that commit panicked. -/
 def jointScalarMul (O : GOps G) (r : Nat) (s1 s2 : Int) (a1 a2 : G) : G :=
   let k1 := s1.natAbs
   let k2 := s2.natAbs
   let tbl := table15 O (signPt O s1 a1) (signPt O s2 a2)
   shamirLoop O tbl (k1 % r) (k2 % r) (hiWordIndex (bitLen k1) (bitLen k2))
 
-/-- index-out-of-range condition of the Go code (`limbs = fr.Limbs`) -/
+/-- `if hiWordIndex >= fr.Limbs { hiWordIndex = fr.Limbs - 1 }` of the Go text (since /repo commit 90fc5e6): the scalars are reduced
+below `r < 2^(64·limbs)`, so the words above `limbs - 1` are not there to be read -/
+def clampHi (limbs hi : Nat) : Nat := if hi ≥ limbs then limbs - 1 else hi
+
+/-- `G1Jac.JointScalarMultiplication` AS WRITTEN (with the clamp of the loop bound to the `limbs` words of an `fr.Element`): the
+subject of the refinement theorem `C03loop_joint_refines` (Props/C03_loop_gen); equals `jointScalarMul` wherever both make sense
+(`C03_jointScalarMulC`) -/
+def jointScalarMulC (O : GOps G) (r limbs : Nat) (s1 s2 : Int) (a1 a2 : G) : G :=
+  let k1 := s1.natAbs
+  let k2 := s2.natAbs
+  let tbl := table15 O (signPt O s1 a1) (signPt O s2 a2)
+  shamirLoop O tbl (k1 % r) (k2 % r) (clampHi limbs (hiWordIndex (bitLen k1) (bitLen k2)))
+
+/-- index-out-of-range condition of the Go code BEFORE commit 90fc5e6 (`limbs = fr.Limbs`); the current text clamps (`clampHi`) -/
 def jointPanics (limbs : Nat) (s1 s2 : Int) : Bool :=
   hiWordIndex (bitLen s1.natAbs) (bitLen s2.natAbs) ≥ limbs
 
